@@ -1419,3 +1419,34 @@ Lemma clone_fault_witness :
       /\ exists_ g (cw_b ++ [cw_id]) = true /\ exists_ cw_f0 (cw_b ++ [cw_id]) = false   (* and it is not the pre-state *)
   end.
 Proof. vm_compute. repeat split; eauto. Qed.
+
+(* ------------------------------------------------------------------ statements as used in props/C11.v *)
+Lemma crash_safe_init_thm : forall frepr wss f0 w1 w2 wr sp force atomic g,
+  WInv frepr wss f0 -> In (w1 :: w2 :: wr) wss ->
+  crash_states (op_prog frepr atomic (KInit (w1 :: w2 :: wr) sp force)) f0 g ->
+  CInv frepr (KInit (w1 :: w2 :: wr) sp force) wss f0 g.
+Proof. intros. eapply crash_safe_init_lemma; eauto. Qed.
+
+Lemma crash_safe_rekey_thm : forall frepr wss f0 w1 w2 wr old nsp atomic g,
+  WInv frepr wss f0 -> In (w1 :: w2 :: wr) wss -> In old (job_dirs f0 (w1 :: w2 :: wr)) ->
+  old <> calc_id frepr nsp ->
+  get f0 (((w1 :: w2 :: wr) ++ [old]) ++ [TMPPFX ++ [] ++ SPF]) = None ->
+  crash_states (op_prog frepr atomic (KRekey (w1 :: w2 :: wr) old nsp)) f0 g ->
+  CInv frepr (KRekey (w1 :: w2 :: wr) old nsp) wss f0 g.
+Proof. intros. eapply crash_safe_rekey_lemma; eauto. Qed.
+
+Lemma crash_safe_move_thm : forall frepr wss f0 ws dws i atomic g,
+  WInv frepr wss f0 -> In ws wss -> In dws wss -> In i (job_dirs f0 ws) ->
+  crash_states (op_prog frepr atomic (KMove ws i dws)) f0 g ->
+  CInv frepr (KMove ws i dws) wss f0 g.
+Proof. intros. eapply crash_safe_move_lemma; eauto. Qed.
+
+Lemma fault_safe_move_thm : forall frepr wss f0 ws dws i atomic plan,
+  WInv frepr wss f0 -> In ws wss -> In dws wss -> In i (job_dirs f0 ws) -> length dws = 2%nat ->
+  let '(g, out) := run_fault plan 0 (op_prog frepr atomic (KMove ws i dws)) f0 in
+  CInv frepr (KMove ws i dws) wss f0 g /\
+  match out with
+  | inl _ => post_ok frepr (KMove ws i dws) f0 g = true
+  | inr _ => g = f0
+  end.
+Proof. intros. eapply fault_safe_move_lemma; eauto. Qed.
